@@ -233,6 +233,7 @@ func shallowWF(v Value) bool {
 
 /*@ func (self ValueString) Clone
     ensures @copy (*result).(ValueString).Inner == nfc(self.Inner) && fresh(result)
+    ensures @own-cursor (*result).(ValueString).currIterIdx != nil && fresh((*result).(ValueString).currIterIdx)
 @*/
 
 /*@ func (self ValueList) Clone
@@ -295,13 +296,14 @@ func wrapIndex(i int64, n int) int64 {
 func inBounds(i int64, n int) bool { return 0 <= wrapIndex(i, n) && wrapIndex(i, n) < int64(n) }
 
 /*@ func IndexValue
-    serves C02, C01
+    serves C02, C01, C04, C18
     requires base != nil && *base != nil && index != nil && *index != nil && span != nil
     requires indexable(*base, *index)
     ensures @list-element ret1 == nil && old((*base).Kind()) == ListValueKind ==> old(inBounds((*index).(ValueInt).Inner, len(*(*base).(ValueList).Values))) && ret0 == old((*(*base).(ValueList).Values)[wrapIndex((*index).(ValueInt).Inner, len(*(*base).(ValueList).Values))])
     ensures @list-bounds old((*base).Kind()) == ListValueKind && !old(inBounds((*index).(ValueInt).Inner, len(*(*base).(ValueList).Values))) ==> ret1 != nil
     ensures @string-bounds old((*base).Kind()) == StringValueKind && !old(inBounds((*index).(ValueInt).Inner, len((*base).(ValueString).Inner))) ==> ret1 != nil
     ensures @string-element ret1 == nil && old((*base).Kind()) == StringValueKind ==> old(inBounds((*index).(ValueInt).Inner, len((*base).(ValueString).Inner)))
+    ensures @string-element-value ret1 == nil && old((*base).Kind()) == StringValueKind ==> (*ret0).Kind() == StringValueKind && (*ret0).(ValueString).Inner == nfc(string(old((*base).(ValueString).Inner)[wrapIndex(old((*index).(ValueInt).Inner), len(old((*base).(ValueString).Inner)))]))
     ensures @result ret1 == nil ==> ret0 != nil
 @*/
 
